@@ -263,7 +263,9 @@ impl Envelope {
             .assertions_with_predicate(known_values::HAS_RECIPIENT)
             .into_iter()
             .filter(|assertion| {
-                !assertion.subject().as_object().unwrap().is_obscured()
+                // (also when the obscured sealed message carries assertions
+                // of its own)
+                !assertion.subject().as_object().unwrap().subject().is_obscured()
             })
             .map(|assertion| {
                 assertion.subject().as_object().unwrap().extract_subject::<SealedMessage>()
